@@ -619,7 +619,9 @@ func get(ctx *cli.Context) (*Config, error) {
 	}
 
 	var azblob *AzBlobStorageConfig
-	if ctx.String("azblob.tenant_id") != "" {
+	// The tenant id is not needed by every auth method (eg shared_key), so
+	// the storage account (which is always required) also selects this backend.
+	if ctx.String("azblob.tenant_id") != "" || ctx.String("azblob.storage_account") != "" {
 		azblob = &AzBlobStorageConfig{
 			TenantID:         ctx.String("azblob.tenant_id"),
 			StorageAccount:   ctx.String("azblob.storage_account"),
